@@ -165,13 +165,33 @@ func runOne(t *testing.T, rep *ev.Report, prop, header string, ref Ref, set stri
 		synctest.Wait()
 		send(other, 1, "/b1")
 		send(cl, 3, "/a2")
+		// the handler's injector set is replaced by the same injectors in reverse order (the exported field of a live
+		// handler, between two requests): every name still goes with the value of its own injector
+		if st.RP != nil && len(st.RP.HeaderInjectors) > 1 {
+			n := len(st.RP.HeaderInjectors)
+			rev := make([]reverseproxy.HeaderInjector, n)
+			for i, x := range st.RP.HeaderInjectors {
+				rev[n-1-i] = x
+			}
+			st.RP.HeaderInjectors = rev
+		}
+		send(cl, 5, "/a3")
+		if proto != "h2" {
+			// an HTTP/1.1 client may name any field a connection option; what is stripped is its field, not the proxy's
+			cl.SendH1(bubble.Req{Path: "/a4", Host: "localhost", Lines: [][2]string{{"Connection", "keep-alive, " + header}}})
+			synctest.Wait()
+		}
 		rec := cl.FirstRecord()
 		adm, ok := ref(rec)
 		rep.Add("evaluations", 1)
 		rep.Add("seamB_connections", 1)
 		rep.Note("distinct_nontrivial", "seamB/"+set+"/"+sh.Name+"/"+proto+"/"+del)
 		var vals []string
-		for _, p := range []string{"/a1", "/a2"} {
+		paths := []string{"/a1", "/a2", "/a3"}
+		if proto != "h2" {
+			paths = append(paths, "/a4")
+		}
+		for _, p := range paths {
 			got := st.Backend.ByPath(p)
 			if len(got) != 1 {
 				rep.HarnessError("%s: backend saw %s %d times", desc, p, len(got))
@@ -194,7 +214,7 @@ func runOne(t *testing.T, rep *ev.Report, prop, header string, ref Ref, set stri
 				vals = append(vals, v[0])
 			}
 		}
-		if len(vals) == 2 && vals[0] != vals[1] {
+		if len(vals) >= 2 && vals[0] != vals[1] {
 			rep.Violate(map[string]any{"kind": "differs-between-requests", "header": header, "proto": proto}, map[string]any{"desc": desc, "values": vals},
 				"%s: two requests of one connection carry different %s values %v", desc, header, vals)
 		}
